@@ -7,7 +7,15 @@ K: seeded calls of TimeArray.index_at/at/slice_during/during, UniformTime.index_
    implementation returned (positions, slice ends, picoseconds, units, 0-d flags, data columns,
    exception class)
 oracle: the statement's set definitions ({k | |t_k - t| <= tol}, {k | start <= t_k < stop}, floor
-   bins) evaluated directly with Python integers on the implementation's results
+   bins) evaluated directly with Python integers on the implementation's results; it never calls
+   nitime for a reference value (inputs are described as picosecond integers, expected states of
+   axes / series are worked out from the constructor arguments).
+Ranges (audit): K covers objects of 1..40 samples plus a few of 1009/1025/2049/4097; the oracle-only
+   "long" family runs the implementation on objects of 1025 .. 10^6 samples (numpy int64 definitions);
+   picosecond magnitudes from 1 ps grids to t0 / intervals / tolerances beyond 2^53 and up to ~2^61.6;
+   objects reached through copy / copy.copy / views / np.copy(subok) / ufunc results / strided views /
+   Fortran-ordered and non-contiguous data / time= and float-interval constructor forms; positional
+   and keyword calls.
 """
 import json
 from fractions import Fraction
@@ -1164,7 +1172,7 @@ def gen_big(rng, sizes):
         # around positions near block boundaries / powers of two / the ends
         i = rng.choice([0, 1, nk - 1, nk - 2, nk // 2, 511, 512, 1023, 1024, 1025, 2047, 2048, 4096, 65535, 65536, rng.randint(0, nk - 1)])
         i = max(0, min(nk - 1, i))
-        t = t0 + i * dt + rng.choice([0, 0, 1, dt // 2, dt - 1])
+        t = t0 + i * dt + min(dt - 1, rng.choice([0, 0, 1, dt // 2, dt - 1, dt - 1]))
         r = rng.random()
         if inside is None and r < 0.12:
             t = t0 + nk * dt + rng.choice([0, 1])
@@ -1251,13 +1259,14 @@ def run_big(a):
                 obs = int(r)
             elif op in ("index_list", "mask"):
                 want = [(x - t0) // dt for x in q]
-                r = obj.index_at(big_arg(ts, a, q, scalar=False), boolean=(op == "mask"))
-                if op == "mask":
-                    m = np.zeros(n, dtype=bool)
+                m = np.zeros(n, dtype=bool)
+                if all(lo <= x < hi for x in q):
                     m[want] = True
-                    req, obs = sha(m), sha(np.asarray(r))
+                    req = sha(m) if op == "mask" else [int(x) for x in want]
                 else:
-                    req, obs = [int(x) for x in want], [int(x) for x in r]
+                    req = "ValueError"
+                r = obj.index_at(big_arg(ts, a, q, scalar=False), boolean=(op == "mask"))
+                obs = sha(np.asarray(r)) if op == "mask" else [int(x) for x in r]
             else:
                 sel = pos[(p >= q[0]) & (p < q[1])]
                 inside = lo <= q[0] < hi and lo <= q[1] < hi
@@ -1453,7 +1462,7 @@ def run(ctx):
     actions += [gen_action(ctx.rng, ts, nbig=ctx.rng.choice([1009, 1025, 2049, 4097])) for _ in range(ctx.scale(10, 60))]
     cases = [make_case(a) for a in actions]
     # long objects (up to 10^6 samples): implementation against the statement's definitions, oracle only
-    for _ in range(ctx.scale(40, 400)):
+    for _ in range(ctx.scale(600, 4000)):
         c, f = big_case(gen_big(ctx.rng, BIG_N))
         ctx.count_case(c)
         if f is not None:
@@ -1492,6 +1501,7 @@ def run(ctx):
                      "the model (K) but are outside the statement and not judged by the oracle",
                      "on a uniform axis an epoch with an end outside [t0, t0+duration) is refused with ValueError (the oracle "
                      "accepts the refusal or the exact selection)",
+                     "objects longer than 4097 samples are checked by the oracle only (not in K); |ps| is kept below 2^62 - 2^58",
                      "ill-formed uniform axes (C02 finding: float interval*length, duration/length) are judged against their own "
                      "attributes (t0, interval, duration); positions beyond the samples are attributed to C02"])
 
